@@ -287,10 +287,16 @@ impl Adversary {
                 match f[2] {
                     "finish" => {
                         let _ = tx.finish();
-                        // read whatever the server answers (bounded), report the first bytes
+                        let t0 = tokio::time::Instant::now();
+                        // read whatever the server answers (bounded), report its length, status and the time it took
                         let r = tokio::time::timeout(std::time::Duration::from_secs(5), rx.read_to_end(1 << 20)).await;
                         match r {
-                            Ok(Ok(v)) => format!("answered {}", v.len()),
+                            Ok(Ok(v)) => format!(
+                                "answered {} st={} t={}",
+                                v.len(),
+                                if v.len() >= 14 { u16::from_le_bytes([v[12], v[13]]) as i64 } else { -1 },
+                                t0.elapsed().as_micros()
+                            ),
                             Ok(Err(_)) => "stream-error".into(),
                             Err(_) => { held.push((tx, rx)); "no-answer".into() }
                         }
